@@ -7,6 +7,8 @@ on its behaviour: a false alarm in waiting. Operators (all semantics-preserving)
   invert-if      `if c: A else: B`  ->  `if not (c): B else: A`      (no elif chain)
   flip-eq        `a == b` / `a != b` / `a is b` / `a is not b`  ->  operands swapped
   nest-and       `if a and b: body` (no else)  ->  `if a:` `if b: body`
+  extract-arg    `f(g(x), ...)` as the value of a simple statement  ->  `extracted_arg_ = g(x)` just before, `f(extracted_arg_, ...)`
+  inline-local   `x = <expression without call>` read once, by the next statement  ->  the expression in place of x
 usage: tools/eqsweep.py [--files a.py,b.py] [--limit N] [--jobs 14] [--out FILE]
 """
 import argparse
@@ -104,6 +106,51 @@ def variants_of(src: str, rel: str):
                 op = {ast.Eq: "==", ast.NotEq: "!=", ast.Is: "is", ast.IsNot: "is not"}[type(n.ops[0])]
                 if a and b and not isinstance(n.comparators[0], ast.Constant) and not isinstance(n.left, ast.Constant):
                     out.append((n.lineno, f"flip-eq `{a[:30]} {op} {b[:30]}`", replace_node_text(src, n, f"{b} {op} {a}")))
+    # ---- extract-arg: `stmt(... f(g(x)) ...)` -> `tmp_ = g(x)` placed just before the (simple) statement, when g(x) is the first
+    #      thing the statement evaluates after plain name / attribute lookups
+    for fn in ast.walk(tree):
+        if not isinstance(fn, (ast.FunctionDef, ast.AsyncFunctionDef)):
+            continue
+        for blk in ast.walk(fn):
+            for field in ("body", "orelse", "finalbody"):
+                stmts = getattr(blk, field, None)
+                if not isinstance(stmts, list):
+                    continue
+                for i, st in enumerate(stmts):
+                    if not isinstance(st, (ast.Return, ast.Assign, ast.Expr)) or getattr(st, "value", None) is None or st.lineno != st.end_lineno and False:
+                        continue
+                    v = st.value
+                    if isinstance(v, ast.Call) and isinstance(v.func, (ast.Name, ast.Attribute)) and not any(isinstance(x, ast.Call) for x in ast.walk(v.func)) and v.args \
+                            and isinstance(v.args[0], ast.Call) and not isinstance(v.args[0], ast.Starred) and not any(isinstance(x, (ast.Lambda, ast.GeneratorExp, ast.ListComp, ast.Await, ast.Yield, ast.NamedExpr)) for x in ast.walk(v.args[0])):
+                        if isinstance(st, ast.Assign) and any(isinstance(x, (ast.Subscript, ast.Attribute)) for t in st.targets for x in ast.walk(t)):
+                            continue  # target evaluation order
+                        inner = ast.get_source_segment(src, v.args[0])
+                        if inner is None or "\n" in inner:
+                            continue
+                        ind = indent_of(src, st)
+                        tmp = "extracted_arg_"
+                        new_stmt_src = replace_node_text(src, v.args[0], tmp)
+                        nl = new_stmt_src.splitlines(keepends=True)
+                        nl.insert(st.lineno - 1, f"{ind}{tmp} = {inner}\n")
+                        out.append((st.lineno, f"extract-arg `{inner[:40]}`", "".join(nl)))
+                    # ---- inline-local: `x = <pure expr>` immediately followed by a statement reading x once, x read nowhere else
+                    if isinstance(st, ast.Assign) and len(st.targets) == 1 and isinstance(st.targets[0], ast.Name) and i + 1 < len(stmts) \
+                            and not any(isinstance(x, (ast.Call, ast.Lambda, ast.ListComp, ast.GeneratorExp, ast.DictComp, ast.SetComp, ast.Await, ast.NamedExpr, ast.Starred)) for x in ast.walk(st.value)):
+                        nm = st.targets[0].id
+                        reads = [x for x in ast.walk(fn) if isinstance(x, ast.Name) and x.id == nm and isinstance(x.ctx, ast.Load)]
+                        writes = [x for x in ast.walk(fn) if isinstance(x, ast.Name) and x.id == nm and isinstance(x.ctx, ast.Store)]
+                        nxt = stmts[i + 1]
+                        if len(reads) == 1 and len(writes) == 1 and any(x is reads[0] for x in ast.walk(nxt)) and isinstance(nxt, (ast.Return, ast.Assign, ast.Expr, ast.If)) \
+                                and not any(isinstance(x, (ast.Lambda, ast.FunctionDef, ast.ListComp, ast.GeneratorExp, ast.DictComp, ast.SetComp)) and any(y is reads[0] for y in ast.walk(x)) for x in ast.walk(nxt)):
+                            if isinstance(nxt, ast.If) and not any(x is reads[0] for x in ast.walk(nxt.test)):
+                                continue
+                            rhs = ast.get_source_segment(src, st.value)
+                            if rhs is None:
+                                continue
+                            s2 = replace_node_text(src, reads[0], f"({rhs})")
+                            l2 = s2.splitlines(keepends=True)
+                            del l2[st.lineno - 1: st.end_lineno]
+                            out.append((st.lineno, f"inline-local `{nm} = {rhs[:40]}`", "".join(l2)))
     ok = []
     for line, desc, new in out:
         if new == src:
@@ -124,6 +171,7 @@ def main():
     ap.add_argument("--jobs", type=int, default=14)
     ap.add_argument("--out", default="")
     ap.add_argument("--seed", type=int, default=1)
+    ap.add_argument("--ops", default="", help="comma-separated operator names to keep")
     a = ap.parse_args()
     files = [f for f in a.files.split(",") if f] or sorted(set(DEFAULT_FILES + EXTRA_FILES))
     from sa.run import run_rules
@@ -136,6 +184,9 @@ def main():
         path = os.path.join(a.root, rel)
         if os.path.exists(path):
             vs += variants_of(open(path).read(), rel)
+    if a.ops:
+        keep = tuple(a.ops.split(","))
+        vs = [v for v in vs if v[2].startswith(keep)]
     if a.limit and len(vs) > a.limit:
         random.Random(a.seed).shuffle(vs)
         vs = vs[: a.limit]
